@@ -84,9 +84,11 @@ def handleC07 (j : Json) : Json :=
       let ok := jbool (jget t "ok")
       let ws := (jarr (jget t "ws")).map wOfJson
       let sched := schedFrom (if ok then plansOf ws else []) (implPCaps.get name0).toNat
-      let m := alloc sched ex0 n0 k req
+      let direct := jbool (jget t "direct")
+      let m := if direct then (calculateDeploy sched n0 k req0).map' (fun ws => (ws, n0)) else alloc sched ex0 n0 k req
       let (agree, drop) : Bool × Bool := match m with
         | .ok (mws, n') =>
+          if direct then (ok, false) else
           (ok && wsSame mws ws && usageSame n'.usage (nodeResOfJson (jget t "u1")) &&
             (req.cpuBind || deployCapacity sched n' req == jint (jget t "pcap2")), true)
         | .err e => (!ok && (req.cpuBind || ex0.length > 0 || jstr (jget t "err") == e), false)
@@ -95,7 +97,7 @@ def handleC07 (j : Json) : Json :=
       let v1 := if k ≥ 1 && !acceptOkB cap0 k ok then [s!"C07:accept:k={k}:cap={cap0}"] else []
       let v2 := if drop && ok && k ≥ 1 && !req.cpuBind && req.memRequest > 0 &&
                    jint (jget t "pcap2") != implPCaps.get name0 - k then ["C07:drop"] else []
-      let v3 := if ok && !jbool (jget t "restored") then ["C08:rollback-alloc"] else []
+      let v3 := if ok && !direct && !jbool (jget t "restored") then ["C08:rollback-alloc"] else []
       (agree, v1 ++ v2 ++ v3, ok)
     let v0 := (if implCaps.any (fun (_, c) => c ≤ 0) || implPCaps.any (fun (_, c) => c ≤ 0) then ["C07:zero-offered"] else []) ++
               (if jint (jget impl "total") != satSum (implCaps.map (·.2)) then ["C07:total"] else []) ++
@@ -174,10 +176,11 @@ def handleC08 (j : Json) : Json :=
     let st := ((jarr (jget j "ops")).zip (jarr (jget j "impl"))).foldl stepC08 st0
     let agree := st.agree && jstr (jget j "seterr") == "" && (jarr (jget j "ops")).length == (jarr (jget j "impl")).length
     let numa := if capacity.numa.length > 0 then "numa" else "flat"
-    let feats := ["realloc-bound-numa", "realloc-bound", "realloc-unbound", "rbrealloc", "drop", "alloc-bound"].filter
-      fun f => st.kinds.any (fun k => k == f || (f == "realloc-bound" && k.startsWith "realloc-bound"))
+    let has (p : String) : Bool := st.kinds.any (·.startsWith p)
+    let feats := (if has "realloc-bound" || has "realloc-unbound" then ":realloc" else "") ++
+      (if st.kinds.any (· == "rbrealloc") then ":rb" else "") ++ (if st.kinds.any (·.endsWith "-numa") then ":numamem" else "")
     verdict id agree (Json.mkObj [("usage", nodeResToJson st.s.node.usage), ("live", Json.arr (st.s.live.map wToJson).toArray)])
-      st.spec (s!"hist-{numa}:" ++ ",".intercalate feats) (st.okOps == 0)
+      st.spec (s!"hist-{numa}" ++ feats) (st.okOps == 0)
 
 /-! ### C09 -/
 def ratOf (j : Json) (den : Int) : Rat := ((jint j : Int) : Rat) / (den : Rat)
